@@ -177,7 +177,7 @@ def body(case, rec):
 
 
 def run(ctx):
-    n = ctx.share(2400 if ctx.quick else 60000)
+    n = ctx.share(16000 if ctx.quick else 160000)
     explore(ctx, cases(), body, n)
 
 
